@@ -22,7 +22,8 @@ CONSTANTS
     Orgs,            \* origin ids (see Org)
     Dims,            \* subset of {2, 3}
     BoxMode,         \* "full" | "cross"
-    Deviations       \* {} = the property ; "KronGaps" = Grid2D sub-grid as built ; "OpenBox"
+    Deviations       \* {} = the property ; "KronGaps" = Grid2D sub-grid as built before 4cf65a8 ; "OpenBox" ;
+                     \* "BlankInMemoryOnly" = Grid2D blanking not written through to the file
 
 VARIABLES cfg, out
 vars == <<cfg, out>>
@@ -165,8 +166,18 @@ Sel(g, cells, box, inv) ==
                                   k == KOf(g, i0 + a, j0 + b)
                               IN [pos |-> k, src |-> IF mask[k] THEN KOf(g, cols[a + 1] - 1, rows[b + 1] - 1) ELSE 0]]]
         sub == IF "KronGaps" \in Deviations THEN kron ELSE ideal
-        full == [nu |-> g.nu, nv |-> g.nv, cells |-> [k \in 1..n |-> [pos |-> k, src |-> IF mask[k] THEN k ELSE 0]]]
+        \* The copy exists twice: the live entity and what is stored in the file (what any later reader
+        \* gets).  Every step of the copy writes through: Data.copy -> copy_to_parent saves the gathered
+        \* values (data.py:110-115), the final blanking of the sub-grid assigns child.values, whose setter
+        \* calls workspace.update_attribute(child, "values") (grid2d.py:223-225; :217-219 in the first
+        \* snapshot; data/numeric_data.py values.setter).  Named deviation BlankInMemoryOnly: the blanking
+        \* edits the cached array in place and never reaches the setter, so the file keeps the values
+        \* gathered for the whole covering sub-grid.
         empty == [nu |-> 0, nv |-> 0, cells |-> <<>>]
+        unblanked == [m \in DOMAIN sub.cells |-> [pos |-> sub.cells[m].pos, src |-> sub.cells[m].pos]]
+        full == [nu |-> g.nu, nv |-> g.nv, cells |-> [k \in 1..n |-> [pos |-> k, src |-> IF mask[k] THEN k ELSE 0]]]
+        live == IF ~any THEN (IF Kind = "grid2d" THEN empty ELSE full)
+                ELSE IF Kind = "grid2d" /\ ~inv THEN sub ELSE full
     IN [mask |-> mask, miss |-> miss,
         none_ok |-> miss \/ ~any,
         \* masks: None on a miss only (grid_object.py:146)
@@ -176,8 +187,10 @@ Sel(g, cells, box, inv) ==
         \* Grid2D: None when nothing is selected (grid2d.py:174); inverse keeps the whole grid and blanks
         \* the values inside the box (:203, object_base.copy -> data.py:105-108), whole copy on a miss.
         copy_none |-> IF Kind = "grid2d" THEN ~any ELSE miss,
-        copy |-> IF ~any THEN (IF Kind = "grid2d" THEN empty ELSE full)
-                 ELSE IF Kind = "grid2d" /\ ~inv THEN sub ELSE full,
+        copy |-> live,
+        \* cells of the stored copy (position -> value), see above
+        stored |-> IF any /\ Kind = "grid2d" /\ ~inv /\ "BlankInMemoryOnly" \in Deviations
+                   THEN unblanked ELSE live.cells,
         \* smallest covering rectangle (also accepted for inverse Grid2D copies)
         cover |-> IF any /\ Kind = "grid2d" THEN <<i0, i1, j0, j1>> ELSE <<>>,
         asbuilt |-> IF any /\ Kind = "grid2d" /\ ~inv /\ kron # ideal THEN kron ELSE empty]
@@ -215,6 +228,8 @@ ValuesFollow ==
         /\ \A m \in DOMAIN cp : cp[m].src = (IF R(inv).mask[cp[m].pos] THEN cp[m].pos ELSE 0)
         /\ \A m1, m2 \in DOMAIN cp : m1 # m2 => cp[m1].pos # cp[m2].pos
         /\ \A k \in 1..N : R(inv).mask[k] => \E m \in DOMAIN cp : cp[m].pos = k
+\* what is stored in the file for the copy is what the live copy shows (write-through)
+StoredEqualsLive == Done => \A inv \in BOOLEAN : R(inv).stored = R(inv).copy.cells
 \* Grid2D, inverse = FALSE: the copy is a full rectangle of cells and each of its four border
 \* lines holds a selected cell (smallest covering sub-grid)
 SmallestSubGrid ==
